@@ -48,6 +48,9 @@ var types = map[string]ptype{
 	"tcpgroup": {func(n string) *msg.NewProxy {
 		return &msg.NewProxy{ProxyName: n, ProxyType: "tcp", RemotePort: 20002, Group: "G", GroupKey: "k"}
 	}, tcpTraffic(20002)},
+	"tcpgroup0": {func(n string) *msg.NewProxy {
+		return &msg.NewProxy{ProxyName: n, ProxyType: "tcp", RemotePort: 0, Group: "G0", GroupKey: "k"}
+	}, nil},
 	"udp": {func(n string) *msg.NewProxy { return &msg.NewProxy{ProxyName: n, ProxyType: "udp", RemotePort: 20001} }, nil},
 	"tcplim": {func(n string) *msg.NewProxy {
 		return &msg.NewProxy{ProxyName: n, ProxyType: "tcp", RemotePort: 20001, BandwidthLimit: "64KB", BandwidthLimitMode: "server"}
@@ -97,7 +100,7 @@ var types = map[string]ptype{
 	"xtcp": {func(n string) *msg.NewProxy { return &msg.NewProxy{ProxyName: n, ProxyType: "xtcp", Sk: "sk"} }, nil},
 }
 
-var typeOrder = []string{"tcp", "tcp0", "tcpgroup", "udp", "tcplim", "udplim", "http", "httpsub", "httpgroup", "https", "tcpmux", "tcpmuxgroup", "stcp", "sudp", "xtcp"}
+var typeOrder = []string{"tcp", "tcp0", "tcpgroup", "tcpgroup0", "udp", "tcplim", "udplim", "http", "httpsub", "httpgroup", "https", "tcpmux", "tcpmuxgroup", "stcp", "sudp", "xtcp"}
 
 // term: register, use, terminate by `how`, check everything is back, register the identical proxy again; twice.
 func scTerm(tname, how string) func(x *vs.Exec) {
@@ -446,7 +449,7 @@ func main() {
 	if c == nil {
 		return
 	}
-	c.Rule("E1: real frps on the virtual network/clock; for each of 15 proxy shapes x {close request, connection cut, re-login, heartbeat timeout}: two identical register/use/terminate cycles, all schedules with at most B deviations; control connection cut injected at every scheduling point of register/use/close (fault enumeration); multi-resource registrations failing part-way; connection wrappers closed 3 times from 2 threads; non-trivial = distinct end state / observation trace")
+	c.Rule("E1: real frps on the virtual network/clock; for each of 16 proxy shapes (incl. a tcp group on a server-chosen port) x {close request, connection cut, re-login, heartbeat timeout}: two identical register/use/terminate cycles, all schedules with at most B deviations; control connection cut injected at every scheduling point of register/use/close (fault enumeration); multi-resource registrations failing part-way; connection wrappers closed 3 times from 2 threads; non-trivial = distinct end state / observation trace")
 	type run struct {
 		s string
 		b int
